@@ -1,2 +1,70 @@
-(* Properties_C09_tdigest.v - statements are added below as the proofs land *)
-From DS Require Import TDigestCodecDefs.
+(* Properties_C09_tdigest.v — round trip of the tdigest<double> image.  Statements only; proofs in TDigestCodecProofs.v.  The model
+   (TDigestCodecDefs.v) is the one extracted and compared with the code byte for byte on every run.  [dec] describes both readers
+   (deserialize(bytes, size) and deserialize(istream)): its second component is what the stream reader leaves unread; [norm] is the
+   digest after a round trip (identity except that an empty digest and a single value have one canonical form). *)
+From Coq Require Import NArith List Bool.
+From DS Require Import Word TDigestCodecDefs TDigestCodecProofs.
+Import ListNotations.
+Local Open Scope N_scope.
+
+(* every well-formed digest (any k in [10, 65535], either REVERSE_MERGE flag, empty / single value / any centroids and buffer):
+   the image, followed by anything, is read back as the digest and exactly the image is consumed *)
+Theorem C09_td_roundtrip : forall s, wf s -> forall rest, dec (enc s ++ rest) = Some (norm s, rest).
+Proof. exact dec_enc. Qed.
+
+Theorem C09_td_roundtrip_bytes : forall s, wf s -> forall rest, dec_bytes (enc s ++ rest) = Some (norm s).
+Proof. exact roundtrip_bytes. Qed.
+
+Theorem C09_td_roundtrip_stream : forall s, wf s -> forall rest, dec_stream (enc s ++ rest) = Some (norm s, length (enc s)).
+Proof. exact roundtrip_stream. Qed.
+
+(* the restored digest is observationally the original: same k, flag, min, max and the same weighted points (centroids followed
+   by buffered values); with more than one value it is the original, field by field *)
+Theorem C09_td_observational : forall s, canonical s ->
+  c_k (norm s) = c_k s /\ c_rev (norm s) = c_rev s /\ c_min (norm s) = c_min s /\ c_max (norm s) = c_max s /\
+  points (norm s) = points s /\ (is_empty s = false -> is_single s = false -> norm s = s).
+Proof. exact norm_obs. Qed.
+
+(* re-serialization of the restored digest gives the same image; a second round trip changes nothing *)
+Theorem C09_td_reserialize : forall s, wf s -> enc (norm s) = enc s.
+Proof. exact enc_norm. Qed.
+Theorem C09_td_norm_idempotent : forall s, norm (norm s) = norm s.
+Proof. exact norm_norm. Qed.
+
+(* the image has exactly the advertised size *)
+Theorem C09_td_size : forall s, N.of_nat (length (enc s)) = serialized_size s.
+Proof. exact enc_size. Qed.
+
+(* header form: h zero bytes followed by the same image *)
+Theorem C09_td_header_form : forall h s,
+  firstn h (enc_hdr h s) = repeat 0 h /\ skipn h (enc_hdr h s) = enc s /\ length (enc_hdr h s) = (h + length (enc s))%nat.
+Proof. exact hdr_form. Qed.
+
+(* non-vacuity: an empty digest, a single value held in the buffer, centroids + buffer with the REVERSE_MERGE flag *)
+Definition C09_ex_empty : tdc := {| c_k := 100; c_rev := false; c_min := pinf_bits; c_max := ninf_bits; c_cents := []; c_buf := [] |}.
+Definition C09_ex_single : tdc := {| c_k := 200; c_rev := false; c_min := 4615063718147915776; c_max := 4615063718147915776; c_cents := [];
+                                     c_buf := [4615063718147915776] |}.
+Definition C09_ex_multi : tdc := {| c_k := 10; c_rev := true; c_min := 4607182418800017408; c_max := 4613937818241073152;
+                                    c_cents := [(4607182418800017408, 1); (4611686018427387904, 2)]; c_buf := [4613937818241073152] |}.
+Example C09_ex_images :
+  length (enc C09_ex_empty) = 8%nat /\ length (enc C09_ex_single) = 16%nat /\ length (enc C09_ex_multi) = 72%nat /\
+  dec (enc C09_ex_multi ++ [7; 7]) = Some (C09_ex_multi, [7; 7]) /\
+  dec (enc C09_ex_single) = Some (norm C09_ex_single, []) /\ c_cents (norm C09_ex_single) = [(4615063718147915776, 1)] /\
+  dec (enc C09_ex_empty) = Some (C09_ex_empty, []) /\ nth 5 (enc C09_ex_multi) 0 = 4.
+Proof. vm_compute. repeat split; reflexivity. Qed.
+Example C09_ex_wf : wf C09_ex_multi /\ canonical C09_ex_single.
+Proof.
+  split.
+  - split; cbn; try (split; [discriminate|reflexivity]); try reflexivity; try discriminate;
+      repeat (apply Forall_cons; [try (split; reflexivity); reflexivity|]); apply Forall_nil.
+  - split; [discriminate|]. intros _. split; reflexivity.
+Qed.
+
+Print Assumptions C09_td_roundtrip.
+Print Assumptions C09_td_roundtrip_bytes.
+Print Assumptions C09_td_roundtrip_stream.
+Print Assumptions C09_td_observational.
+Print Assumptions C09_td_reserialize.
+Print Assumptions C09_td_norm_idempotent.
+Print Assumptions C09_td_size.
+Print Assumptions C09_td_header_form.
